@@ -1,12 +1,12 @@
 import TracklibVerif.Lemmas.SimplifyVw
 import TracklibVerif.Lemmas.SimplifyTrack
 import Mathlib.Algebra.Order.Field.Basic
-/-! Visvalingam's threshold over a linearly ordered scalar type: `Operator.ARGMIN` designates a smallest entry of the
-column, so when the loop stops by `break` every remaining interior fix spans with its neighbours a triangle of area
-`> eps²`. -/
+/-! Visvalingam's threshold over a linearly ordered scalar type **with arbitrary arithmetic** (nothing is assumed about
+`+ − × ÷`: they may round; only `<` is a linear order): `Operator.ARGMIN` designates a smallest entry of the column, so when
+the loop stops by `break` every remaining interior fix spans with its neighbours a triangle of *computed* area `> eps²`. -/
 namespace TV.Simplify
 set_option linter.unusedSectionVars false
-variable {α : Type} [Field α] [LinearOrder α] [IsStrictOrderedRing α]
+variable {α : Type} [Add α] [Sub α] [Mul α] [Div α] [Neg α] [BEq α] [OfNat α 0] [OfNat α 1] [OfNat α 2] [LinearOrder α]
 
 /-- ARGMIN (strict `<`, first minimum, NaN skipped): either no entry is a number below the initial minimum and the
 initial index is returned, or the index returned holds a number below it that no other number of the column undercuts -/
